@@ -3,8 +3,14 @@ package main
 import (
 	"io"
 	"log/slog"
+	"math/rand"
+	"time"
 )
 
 func discardLogger() *slog.Logger {
 	return slog.New(slog.NewTextHandler(io.Discard, &slog.HandlerOptions{Level: slog.LevelError + 100}))
 }
+
+func newRng(seed int64) *rand.Rand { return rand.New(rand.NewSource(seed)) }
+
+func afterMs(ms int) <-chan time.Time { return time.After(time.Duration(ms) * time.Millisecond) }
